@@ -10,9 +10,11 @@ case input = [naddr, labels, progs, actions, mode]
   labels   the label sequence of the model (coq/Conc/DgramServer.v) as recorded from the real run of the script
              [0,a,d] Arrive   [1,susp] HStart   [2,a] HResume   [3,a] TaskStart   [4,a] GSuspend   [5,a] GResume
              [6,a,t] GYield (t = [] | [ticks])   [7,a] GReturn   [8,a] GRaise   [9,a] PopWake   [10,a] Timeout
+             [11,a,r] GCancel: the generator ended with CancelledError while the server keeps running; r = does the
+             task-done hook still restart a task for a non-empty queue (recorded from the implementation per process)
   progs    per address: the adversary's choices, consumed each time the handler generator of that address has
            control (across restarts):  [0] suspend on a gate | [1,t] yield (t=-1: no timeout, else ticks of 1/1024 s)
-           | [2] return | [3] raise ; when exhausted: yield without timeout
+           | [2] return | [3] raise | [4] end with asyncio.CancelledError ; when exhausted: yield without timeout
   actions  the driver's script: [0,a,d] datagram d arrives from a | [1,a] release a's gate | [2] one loop iteration
            | [3] run until nothing is ready | [4,dt] let dt ticks of virtual time pass (timers fire), then as [3]
   mode     [yieldcond]: 1 = the backend's condition variable yields to the loop once when it is acquired from
@@ -57,7 +59,7 @@ ANCHORS = [
 TICK = 1.0 / 1024
 
 # label / obs codes
-L_ARRIVE, L_HSTART, L_HRESUME, L_TSTART, L_GSUSP, L_GRESUME, L_GYIELD, L_GRETURN, L_GRAISE, L_POP, L_TIMEOUT = range(11)
+L_ARRIVE, L_HSTART, L_HRESUME, L_TSTART, L_GSUSP, L_GRESUME, L_GYIELD, L_GRETURN, L_GRAISE, L_POP, L_TIMEOUT, L_GCANCEL = range(12)
 O_HSTART, O_GENNEW, O_RECV, O_THROW = 0, 1, 2, 3
 O_CRASH = 9
 
@@ -95,6 +97,7 @@ class _Run:
                 a = client.extra(INETClientAttribute.remote_address).port - 1000
                 run.push_may_yield = False
                 run.log.append(("gennew", a))
+                own_cancel = False
                 try:
                     while True:
                         prog = run.progs[a]
@@ -124,11 +127,16 @@ class _Run:
                         elif ch[0] == 2:
                             run.log.append(("greturn", a))
                             return
-                        else:
+                        elif ch[0] == 3:
                             run.log.append(("graise", a))
                             raise HandlerBoom()
+                        else:
+                            # what a handler awaiting a cancelled future/task does
+                            run.log.append(("gcancel", a))
+                            own_cancel = True
+                            raise asyncio.CancelledError()
                 except (asyncio.CancelledError, GeneratorExit):
-                    if not run.stopping:
+                    if not run.stopping and not own_cancel:
                         run.log.append(("gcancelled", a))
                     raise
 
@@ -383,12 +391,30 @@ def convert(naddr, log):
             a = ev[1]
             active[a] -= 1
             labels.append([L_GRETURN if k == "greturn" else L_GRAISE, a])
+        elif k == "gcancel":
+            a = ev[1]
+            active[a] -= 1
+            labels.append([L_GCANCEL, a, int(hook_restarts_after_generator_cancel())])
         elif k == "crash":
             obs.append([O_CRASH])
         else:
             obs.append([8, 0])      # gcancelled: never expected, always a disagreement
     summary = [[gens[a], active[a], recvd[a]] for a in range(naddr)]
     return labels, obs, summary, maxactive
+
+
+_RESTARTS = None
+
+
+def hook_restarts_after_generator_cancel() -> bool:
+    """recorded once per process from the real server: a generator ends with CancelledError while a datagram of its
+    address is queued and the server keeps running -- is a fresh generator started for the queued datagram?"""
+    global _RESTARTS
+    if _RESTARTS is None:
+        _RESTARTS = True        # (value used by convert() for the probe's own log; irrelevant for the answer)
+        log = run_script(1, [[[1, -1], [0], [4]]], [[0, 0, b"a"], [3], [0, 0, b"b"], [3], [1, 0], [3]], [0])
+        _RESTARTS = any(ev[0] == "grecv" and ev[2] == b"b" for ev in log)
+    return _RESTARTS
 
 
 def run_impl(inp):
@@ -404,7 +430,7 @@ def run_impl(inp):
 # ------------------------------------------------------------------------------------------------ case generation
 RULE = ("a case is a driver script for the real server (datagram arrivals from 1-3 addresses, gate releases, single loop "
         "iterations, run-until-idle, virtual time advances) plus one adversary program per address (suspend / yield "
-        "with or without timeout / return / raise, consumed across generator restarts); the label sequence of the "
+        "with or without timeout / return / raise / end with CancelledError, consumed across generator restarts); the label sequence of the "
         "model is recorded from the real run. Exhaustive: every action sequence up to length 4 (5 thorough) over "
         "{arrive, release, idle, advance} x every program up to length 2 (thorough: also length 4 x programs up to 3) for one address (also with the "
         "yielding condition variable), every action sequence up to length 4 (5) over {arrive from 0, arrive from 1, "
@@ -421,7 +447,7 @@ ASSUMPTIONS = ["handler tasks take their first step in the order in which the li
                "at the bare low level an exception in the generator terminates serve() (out of scope here, see C17)",
                "server shutdown/cancellation is not part of the label alphabet (C18)"]
 
-CHOICES = ([0], [1, -1], [1, 3], [2], [3])
+CHOICES = ([0], [1, -1], [1, 3], [2], [3], [4])
 
 
 def make_input(naddr, progs, actions, mode):
@@ -454,6 +480,8 @@ def _features(naddr, labels):
             tags.add("timeout")
         elif k in (L_GRETURN, L_GRAISE):
             tags.add("gen-return" if k == L_GRETURN else "gen-raise")
+        elif k == L_GCANCEL:
+            tags.add("gen-cancel")
         elif k == L_GSUSP:
             tags.add("gen-suspend")
     # a finish leaves busy only if followed by TaskStart; recompute restarts-after-finish roughly from labels
@@ -598,7 +626,7 @@ def _analyse(naddr, log, where):
                 exp = arrived[a][consumed[a]] if consumed[a] < len(arrived[a]) else None
                 return f"fifo: address {a} handler received {ev[2]!r}, expected {exp!r} ({where})"
             consumed[a] += 1
-        elif k in ("greturn", "graise"):
+        elif k in ("greturn", "graise", "gcancel"):
             a = ev[1]
             active[a] -= 1
             if not yielded[a]:
@@ -657,6 +685,19 @@ def shrink(inp):
             yield make_input(naddr, p2, actions, mode)
     if mode and mode[0]:
         yield make_input(naddr, progs, actions, [0])
+
+
+def extra(ctx):
+    """the theorems cover label sequences without `GCancel _ false`; if the implementation produces that label (the hook
+    does not restart after a generator that ended with the cancelled exception) the property is not shown to hold"""
+    restarts = hook_restarts_after_generator_cancel()
+    if not restarts:
+        ctx.problems.append(dict(
+            kind="proof",
+            detail="implementation takes the transition GCancel _ false (no restart after a generator ended with the "
+                   "cancelled exception while the server keeps running): outside `Forall ok_label`, refuted by "
+                   "state_none_implies_queue_empty_refuted_without_restart"))
+    return dict(hook_restarts_after_generator_cancel=restarts)
 
 
 if __name__ == "__main__":
